@@ -918,7 +918,7 @@ fn driver_args(seed: u64, vars: &[(String, String)], values: &[&str]) -> Vec<Str
 pub fn model_eval_attr(drv: &mut Driver, vars: &[(String, String)], seed: u64, value: &str) -> Result<Out, String> {
     let a = driver_args(seed, vars, &[value]);
     let ar: Vec<&str> = a.iter().map(|s| s.as_str()).collect();
-    let r = drv.call("eval_attr", &ar)?;
+    let r = drv.call("expr_eval_attr", &ar)?;
     match r.first().map(|s| s.as_str()) {
         Some("ok") if r.len() >= 3 => Ok(Out::Ok(r[1].clone(), r[2].parse().unwrap_or(u32::MAX))),
         Some("err") if r.len() >= 2 && r[1] == "panic" => Ok(Out::Panic("model: panic site".into())),
@@ -1098,6 +1098,10 @@ fn tree_streams(rep: &mut Report, drv: &mut Driver, rng: &mut Rng, n: usize) -> 
 
 /// re-run one recorded case: implementation vs model, and vs the recorded expectation of the oracle
 pub fn replay(rep: &mut Report, v: &serde_json::Value) {
+    if let Ok(spec) = std::env::var("VERIF_C14_DEEP") {
+        deep_child(&spec);
+        std::process::exit(0);
+    }
     let r = v.get("replay").unwrap_or(v);
     let Some(input) = r.get("input").and_then(|x| x.as_str()) else {
         rep.notes.push("replay file has no input".into());
@@ -1105,6 +1109,26 @@ pub fn replay(rep: &mut Report, v: &serde_json::Value) {
     };
     let mut st = Stream::new("replay", "oracle", "the replay input");
     st.case(input, true, || json!({"input": input}));
+    if r.get("kind").and_then(|k| k.as_str()) == Some("deep") {
+        let kind = r.get("generator").and_then(|g| g.get("nesting")).and_then(|x| x.as_str()).unwrap_or("parens").to_string();
+        let d = r.get("generator").and_then(|g| g.get("depth")).and_then(|x| x.as_u64()).unwrap_or(10) as usize;
+        let want = format!("ok {}", r.get("expect").and_then(|e| e.get("value")).and_then(|x| x.as_str()).unwrap_or("1"));
+        if let Ok(exe) = std::env::current_exe() {
+            match std::process::Command::new(&exe).env("VERIF_C14_DEEP", format!("{kind}:{d}")).arg("C14").output() {
+                Ok(o) => {
+                    let text = String::from_utf8_lossy(&o.stdout).trim().to_string();
+                    if o.status.success() && (text == want || text.starts_with("err ")) {
+                        st.exact += 1;
+                    } else {
+                        rep.violation(Violation { kind: "oracle", stream: "replay".into(), signature: format!("C14:deep-nesting:{kind}"), what: format!("expression nested {d} deep ({kind}): status {:?}, output {text:?}, stderr {:?}", o.status, String::from_utf8_lossy(&o.stderr).lines().last().unwrap_or("")), replay: r.clone(), confirmed_on_impl: true });
+                    }
+                }
+                Err(e) => rep.notes.push(format!("cannot run child: {e}")),
+            }
+        }
+        rep.streams.push(st);
+        return;
+    }
     if r.get("kind").and_then(|k| k.as_str()) == Some("document") {
         let want_draws = r.get("expect").and_then(|e| e.get("random_words")).and_then(|x| x.as_u64());
         let want_vals: Vec<String> = r.get("expect").and_then(|e| e.get("values")).and_then(|x| x.as_array()).map(|a| a.iter().filter_map(|x| x.as_str().map(|s| s.to_string())).collect()).unwrap_or_default();
@@ -1139,7 +1163,8 @@ pub fn replay(rep: &mut Report, v: &serde_json::Value) {
         }
     }
     if let Out::Panic(p) = &imp {
-        rep.violation(Violation { kind: "oracle", stream: "replay".into(), signature: "C14:panic".into(), what: format!("the implementation panics: {p}"), replay: r.clone(), confirmed_on_impl: true });
+        let sig = if p.contains("min > max, or either was NaN") { "C14:panic:clamp-nan" } else { "C14:panic" };
+        rep.violation(Violation { kind: "oracle", stream: "replay".into(), signature: sig.into(), what: format!("the implementation panics: {p}"), replay: r.clone(), confirmed_on_impl: true });
     }
     if let Some(exp) = r.get("expect") {
         let bad = if exp.get("must_fail").is_some() {
@@ -1175,7 +1200,70 @@ pub fn run_doc(doc: &str, seed: u64) -> DocOut {
     }
 }
 
+/// "to any nesting depth": deeply nested but perfectly regular expressions, each evaluated in a child
+/// process (a stack overflow aborts the process and cannot be caught in-process)
+fn deep_input(kind: &str, d: usize) -> String {
+    match kind {
+        "parens" => format!("{{{{{}1{}}}}}", "(".repeat(d), ")".repeat(d)),
+        "minus" => format!("{{{{{}1}}}}", "-".repeat(d)),
+        _ => format!("{{{{{}1{}}}}}", "abs(".repeat(d), ")".repeat(d)),
+    }
+}
+
+fn deep_child(spec: &str) {
+    let mut it = spec.split(':');
+    let kind = it.next().unwrap_or("parens").to_string();
+    let d: usize = it.next().and_then(|x| x.parse().ok()).unwrap_or(10);
+    let value = deep_input(&kind, d);
+    let r = impl_eval_attr(&[], 0, &value);
+    match r {
+        Out::Ok(s, _) => println!("ok {s}"),
+        Out::Err(e) => println!("err {e}"),
+        Out::Panic(p) => println!("panic {p}"),
+    }
+}
+
+fn deep_stream(rep: &mut Report, thorough: bool) {
+    let mut st = Stream::new(
+        "oracle/deep",
+        "oracle",
+        "regular expressions nested d levels deep — d opening parentheses, d unary minus signs, d nested abs( — for d = 50 … 3000 (thorough: … 100000), each evaluated in a child process; the value must be 1 (an even number of minus signs) or -1, or the transform may fail, but the process must not crash; non-trivial = every case",
+    );
+    let exe = match std::env::current_exe() { Ok(e) => e, Err(_) => { rep.notes.push("deep stream: cannot find own executable".into()); return; } };
+    let depths: Vec<usize> = if thorough { vec![50, 200, 600, 1000, 3000, 10_000, 100_000] } else { vec![50, 200, 600, 1000, 3000] };
+    for kind in ["parens", "minus", "call"] {
+        for &d in &depths {
+            let key = format!("{kind}:{d}");
+            st.case(&key, true, || json!({"nesting": kind, "depth": d}));
+            st.tally(&format!("nesting={kind}"));
+            let out = std::process::Command::new(&exe).env("VERIF_C14_DEEP", &key).arg("C14").output();
+            let want = if kind == "minus" && d % 2 == 1 { "ok -1" } else { "ok 1" };
+            match out {
+                Err(e) => rep.notes.push(format!("deep stream: cannot run child: {e}")),
+                Ok(o) => {
+                    let text = String::from_utf8_lossy(&o.stdout).trim().to_string();
+                    if o.status.success() && (text == want || text.starts_with("err ")) {
+                        if text == want { st.exact += 1; } else { st.errors_agreed += 1; st.tally(&format!("{kind}:{d} -> {text}")); }
+                    } else {
+                        let err = String::from_utf8_lossy(&o.stderr);
+                        let how = if err.contains("overflowed its stack") { "stack overflow (process aborted)".to_string() } else { format!("status {:?}, output {text:?}", o.status) };
+                        let value = deep_input(kind, d);
+                        let shown = if value.len() > 400 { format!("{}…[{} characters]…{}", &value[..60], value.len(), &value[value.len() - 60..]) } else { value.clone() };
+                        rep.violation(Violation { kind: "oracle", stream: st.name.clone(), signature: format!("C14:deep-nesting:{kind}"), what: format!("expression nested {d} deep ({kind}): {how}; expected {want:?} or a failed transform"), replay: json!({"input": shown, "generator": {"nesting": kind, "depth": d}, "kind": "deep", "expect": {"value": &want[3..]}}), confirmed_on_impl: true });
+                        break; // deeper ones fail the same way
+                    }
+                }
+            }
+        }
+    }
+    rep.streams.push(st);
+}
+
 pub fn run(rep: &mut Report, tier: &str, seed: u64) -> Result<(), String> {
+    if let Ok(spec) = std::env::var("VERIF_C14_DEEP") {
+        deep_child(&spec);
+        std::process::exit(0);
+    }
     let mut rng = Rng::new(seed);
     let mut drv = Driver::start()?;
     let thorough = tier == "thorough";
@@ -1184,6 +1272,7 @@ pub fn run(rep: &mut Report, tier: &str, seed: u64) -> Result<(), String> {
     soup_stream(rep, &mut drv, &mut rng.fork(), if thorough { 600_000 } else { 20_000 })?;
     entry_stream(rep, &mut drv, &mut rng.fork(), if thorough { 300_000 } else { 9_000 })?;
     doc_stream(rep, &mut rng.fork(), if thorough { 40_000 } else { 1_500 })?;
+    deep_stream(rep, thorough);
     Ok(())
 }
 
@@ -1361,7 +1450,7 @@ fn soup_stream(rep: &mut Report, drv: &mut Driver, rng: &mut Rng, n: usize) -> R
         "attribute values made of random token sequences (numbers in every literal form incl. inf/nan/1e5, names of functions and operators, $vars, ${vars}, #refs with '-', quotes with escapes, operators, brackets) and of random characters around / inside / instead of {{ }}, with \\$ escapes and unterminated braces; implementation vs model: value text, error class, random words; non-trivial = every distinct input",
     );
     let toks: Vec<&str> = vec![
-        "1", "2", "0", "3.5", ".5", "7.", "1e3", "1E2", "inf", "nan", "NaN", "infinity", "1e", "0x10", "1_0", "+", "-", "*", "/", "%", ",", "(", ")",
+        "1", "2", "0", "3.5", ".5", "7.", "1e3", "1E2", "inf", "nan", "NaN", "infinity", "1e", "0x10", "1_0", "1e99999", "0e99999", "1e00002", "16777217", "1e39", "0.0000000000000000000000000000000000000000000001", "12345678.9", "\u{2192}", "\u{20ac}5", "+", "-", "*", "/", "%", ",", "(", ")",
         "lt", "gt", "eq", "ne", "le", "ge", "and", "or", "xor", "abs", "min", "max", "count", "sum", "if", "not", "random", "randint", "head", "tail",
         "select", "in", "_", "swap", "divmod", "empty", "join", "split", "$a", "$b", "${a}", "${b}", "$l", "${l}", "$s", "$u", "${u", "$", "${}", "$1", "#id~w", "#a-b~h", "^~w", "#x", "'a'", "\"b\"", "'it\\'s'", "'a\\nb'", "'", "\"",
         "\\", "'a b'", "foo", "x1", "_x", "a.b", "{", "}", "{{", "}}", "\n", "\t", " ", "  ",
@@ -1439,7 +1528,7 @@ fn entry_stream(rep: &mut Report, drv: &mut Driver, rng: &mut Rng, n: usize) -> 
                 let imp = svgdx::verif_hooks::eval_vars_with(vars, &value);
                 let a = driver_args(0, vars, &[&value]);
                 let ar: Vec<&str> = a[1..].iter().map(|s| s.as_str()).collect();
-                let m = drv.call("eval_vars", &ar)?;
+                let m = drv.call("expr_eval_vars", &ar)?;
                 if m.len() == 2 && m[0] == "ok" && m[1] == imp {
                     st.exact += 1;
                 } else {
@@ -1472,7 +1561,7 @@ fn entry_stream(rep: &mut Report, drv: &mut Driver, rng: &mut Rng, n: usize) -> 
                 .map_err(panic_msg);
                 let a = driver_args(seed, &vars, &[&value]);
                 let ar: Vec<&str> = a.iter().map(|s| s.as_str()).collect();
-                let m = drv.call(op, &ar)?;
+                let m = drv.call(&format!("expr_{op}"), &ar)?;
                 let replay = json!({"input": value, "vars": env_json(&env), "seed": seed, "kind": op});
                 let agree = match (&imp, m.first().map(|s| s.as_str())) {
                     (_, Some("err")) if m.get(1).map(|s| s.as_str()) == Some("nanOrder") => { st.skipped += 1; true }
